@@ -19,10 +19,17 @@ type vxC12bCase struct {
 	Map     map[int]int `json:"map"`
 	Request int         `json:"request"`
 	DevPwm  int         `json:"devPwm"`
+	// NeverStopMin > 0: the fan is configured neverStop with this minimum (setPwm itself still serves every request: the
+	// initialisation sequence asks it for every supported input, limits are the business of the control cycle)
+	NeverStopMin int `json:"neverStopMin,omitempty"`
 }
 
 func vxC12bRun(c vxC12bCase) (msg string, written int, wrote bool) {
-	fx := vxNewFixRole(vxCfg{Kind: c.Kind, Min: -1, Max: -1, Map: "identity", Algo: "direct", StartPwm: c.DevPwm, StartMode: 1}, "search")
+	cfg := vxCfg{Kind: c.Kind, Min: -1, Max: -1, Map: "identity", Algo: "direct", StartPwm: c.DevPwm, StartMode: 1}
+	if c.NeverStopMin > 0 {
+		cfg.NeverStop, cfg.Min, cfg.Max = true, c.NeverStopMin, 255
+	}
+	fx := vxNewFixRole(cfg, "search")
 	fx.ctl.pwmMap = c.Map
 	fx.pmap = c.Map
 	fx.ctl.updateDistinctPwmValues()
@@ -125,11 +132,19 @@ func TestVX_C12b(t *testing.T) {
 				var wrote bool
 				var c vxC12bCase
 				for _, st := range starts {
-					c = vxC12bCase{kind, m, req, st}
+					c = vxC12bCase{Kind: kind, Map: m, Request: req, DevPwm: st}
 					msg, written, wrote = vxC12bRun(c)
 					rep.Evaluations++
 					if msg != "" {
 						break
+					}
+				}
+				if msg == "" && kind == "hwmon" && (mi >= total-1 || mi%64 == 7) {
+					c = vxC12bCase{Kind: kind, Map: m, Request: req, DevPwm: 33, NeverStopMin: 50}
+					msg, _, _ = vxC12bRun(c)
+					rep.Evaluations++
+					if msg != "" {
+						msg += " (never-stop fan with minimum 50)"
 					}
 				}
 				if msg != "" {
